@@ -45,7 +45,7 @@ META = dict(
           "backend_fft_2way",
           "sht_matrices", "smoothing_matrices", "canonical_cases", "noncanonical_cases",
           "subspace_transforms"],
-    quick=dict(cases=480, workers=8, budget_s=80),
+    quick=dict(cases=640, workers=8, budget_s=80),
     thorough=dict(cases=16000, workers=16, budget_s=700),
     design_ref="DESIGN.md §5 C09",
     level_text=("generated grids / product domains / conventions, every mode probed densely against an "
